@@ -41,6 +41,9 @@ def run(ctx):
     # (a) spec -> code: the property's list of ill-typed forms expanded over every mnemonic row (must be rejected)
     step = 1 if thorough else 2
     asmcheck.run_suite(ctx, "illtyped-table", [framed(s, "invalid") for s in bad[rnd.randrange(step)::step]])
+    # every VALID cell of the table too: what is accepted decodes as one instruction and fills exactly the space the listing reserves
+    good, _w = asmgen.table(ctx.tier, "valid")
+    asmcheck.run_suite(ctx, "valid-cells", [framed(s, "cell") for s in asmgen.every_cell(good, rnd)])
     # (a') out-of-range values drawn at random inside the same statement shapes
     n = 100000 if thorough else 8000
     cases = []
